@@ -29,6 +29,34 @@ CONFIG = {
                 "a small share of token-level noise. Each op also runs the real entry point j5parse.ParseFile and validateFile alone for "
                 "the oracles, and every 4th op a parser built for that op alone. Non-trivial = the BCL parser accepts the text and the "
                 "file has at least one statement; distinct by op text. Observed outcome mix: ~24 % ok, ~69 % err, ~7 % perr.",
+    }, {
+        "name": "walker.print", "harness": "walkerh", "driver": "drv_walker",
+        "env": {"WALKER_STREAM": "print"},
+        "n": {"quick": 16 * 2500, "thorough": 16 * 25000, "search": 16 * 2000},
+        "shards": {"quick": 16, "thorough": 16, "search": 16},
+        "flush": True, "crash_signature": "walker-crash-or-timeout",
+        "timeout_s": 3000, "driver_timeout_s": 3000,
+        "rule": "op `print HEX(filename) HEX(text) SEXP`: SEXP = an abstract j5s file (the compile cluster's AST, j5sgen), text = its "
+                "rendering by j5sgen.PrintFile in the plain style (style 0). 55 %: one file of a bundle of the j5sgen generator (objects, "
+                "oneofs, enums, services incl. list methods, topics, entities; rules on / off, odd entity names, capture, 1-2 packages "
+                "with imports and package-qualified references); 45 %: tiny files written for this stream, mostly ONE object with ONE "
+                "field drawn from the matrix field type (all 15) x format / key format / entity-key form x reference form (plain, "
+                "package-qualified, dotted schema name = ref.schema / ref.package attributes) x inline object / oneof / enum (named or "
+                "not, with prefix, options, list rules) x ! / ? / both marks x flatten x array / map of each x every rule property of "
+                "the type's Rules schema with a literal of the converted kind (uint64 / int64 / float64 from integers up to 2^64-1, "
+                "bool, strings with quotes / backslashes / comment and description look-alikes, string lists), else small enums, nested "
+                "objects, services, the three topic kinds, entities with keys / data / status / events / commands / summaries / query / "
+                "nested schemas, imports by path string / with alias, a package declaration differing from the directory; 10 % of the ops "
+                "under an unusual file name. One op in 8 is a NEAR MISS: one change that leaves the fragment (bad package / import / "
+                "alias / property / type / option / status / topic / service name, negative or wrongly typed or out-of-range or "
+                "duplicated or unknown rule, empty string list, non-ASCII or multi-line string, bad reference, dotted foreign entity, "
+                "enum / oneof nested in an object, anything nested in a oneof): both sides must answer `unsupported` (the fragment test "
+                "`supported` exists twice, Lean and Go). For a supported file the Go line is computed from the real code: tree=1 iff the "
+                "text IS the plain print of the decoded SEXP, walk= the real walk of the text (ok:DUMP), msg= that dump, same=1; the Lean "
+                "line: tree=1 iff the model's parse of the text, positions erased, equals toBcl(ast); walk= the model's walk of "
+                "toBcl(ast); msg= dump of toMsg(ast); same=1 iff the walked tree EQUALS toMsg(ast) (touched flags included). Oracle "
+                "print-rejected: the real parser does not accept a supported printed file (plus all walker.parse oracles). Non-trivial = "
+                "supported; distinct by op text. Observed: ~87 % supported, 100 % of the unbroken j5sgen files supported.",
     }],
     "trusted_base": [
         "Lean 4.33.0 kernel; axioms at most propext, Classical.choice, Quot.sound",
@@ -44,6 +72,10 @@ CONFIG = {
         "iancoleman/strcase.ToLowerCamel on the ~15 schema names that become automatic aliases (evaluated by the extractor)",
         "strconv.ParseInt / ParseUint (transcribed) and strconv.ParseFloat (correct rounding to nearest-even assumed)",
         "protobuf-go: Mutable / Set / Has / WhichOneof / list and map semantics as summarised in PROTOCOL-walker.md §3 (populated = presence)",
+        "stream walker.print: the definitions toBcl / toMsg / supported of J5V/Walker/Print.lean are hand-written and validated only by "
+        "this stream (no theorem about them yet); the s-expression decoder J5V/Compile/Sexp.lean (compile cluster), the generator AST, "
+        "printer and encoder internal/verifh/j5sgen, the Go copy of the fragment test (walkerh/print_supported.go) and its rule table "
+        "(the Rules schemas of j5.schema.v1, which the Lean side reads from the schema facts)",
         "extract/walker.go (go/ast reader of J5SchemaSpec; schema dump program), the Go harness internal/verifh/walkerh + "
         "internal/bcl/verifwalker (canonical dump printer over protoreflect + j5schema, position extraction, oracles) and the overlay "
         "hooks internal/bcl/verif_walker_hooks.go (ParseAST split into VerifWalk + VerifValidate; behaviour unchanged)",
